@@ -746,3 +746,112 @@ def overload_arity_programs():
                 ExprStmt(Call(f[1], [Call(tick, [Lit(INT, 7)])])), ExprStmt(Call(f[3], [Lit(BYTE, 65), Call(tick, [Lit(INT, 9)]), Lit(BOOL, True)])), _mark('\n')]
         main = Func('@is_you', [('v', Arr(INT, True), False)], EMPTY, body)
         yield 'overload-arity/' + ''.join(str(i) for i in perm), Program([], [f[i] for i in perm] + [main, tick])
+
+
+def const_shadow_programs():
+    """a constant global and locals of the same name and type (constant with a literal initialiser, constant with a computed one,
+    mutable, a parameter) in a nested block, in another function and in a for-initialiser: every use outside the local's scope -
+    later in the same function, in functions declared or compiled before and after - still means the global's value"""
+    vals = {INT: (3, 7, 5), BYTE: (65, 70, 75), BOOL: (True, False, False), STRING: (b'glob', b'blk', b'fn')}
+
+    def use(t, v):
+        if t == INT:
+            return [W(v), _mark(','), W(Bin('+', v, _i(100))), _mark(','), W(Index(S('abcdefghij'), v)), _mark(' ')]
+        if t == BYTE:
+            return [W(v), _mark(','), W(Bin('+', v, Lit(BYTE, 1))), _mark(' ')]
+        if t == BOOL:
+            return [W(v), _mark(','), W(Un('not', v)), _mark(','), If(v, [_mark('T')], [_mark('F')]), _mark(' ')]
+        return [W(v), _mark(','), W(Len(v)), _mark(' ')]
+    for t in (INT, BYTE, BOOL, STRING):
+        v0, v1, v2 = vals[t]
+        for kind in ('const_literal', 'const_computed', 'mutable', 'param'):
+            for order in (0, 1, 2):
+                G = Var('N', t, cv=v0)
+
+                def local(v, kind=kind):
+                    """(declaration, variable) of a local named N"""
+                    lit = Lit(t, v, keep=(kind == 'const_literal'))
+                    if kind == 'const_literal':
+                        return Decl('N', t, lit, const=True), Var('N', t, cv=v)
+                    if kind == 'const_computed':
+                        if t in (INT, BYTE):
+                            init = Bin('+', Var('n', INT), _i(v - 1))
+                            init = Cast(init, BYTE) if t == BYTE else init
+                        elif t == BOOL:
+                            init = Bin('==', Var('n', INT), _i(1 if v else 0))
+                        else:
+                            init = Index(ArrLit([S('x'), Lit(STRING, v)], STRING, True), Var('n', INT))
+                        return Decl('N', t, init, const=True), Var('N', t)
+                    return Decl('N', t, lit), Var('N', t)
+                show = Func('show', [], EMPTY, [_mark('s')] + use(t, G))
+                d1, l1 = local(v1)
+                inner = Func('inner', [('n', INT, False)], EMPTY, [_mark('i')] + use(t, G) + [Block([d1] + use(t, l1) + [ExprStmt(Call(show, []))])] + use(t, G) +
+                             [For(Decl('N', INT, _i(0)), Bin('<', Var('N', INT), _i(2)), OpAssign(Var('N', INT), '+', _i(1)), [W(Var('N', INT))]), _mark(' ')] + use(t, G))
+                if kind == 'param':
+                    shadow = Func('shadow', [('N', t, False), ('n', INT, False)], EMPTY, [_mark('p')] + use(t, Var('N', t)) + [ExprStmt(Call(show, []))])
+                    call_shadow = Call(shadow, [Lit(t, v2), arg(0)])
+                else:
+                    d2, l2 = local(v2)
+                    shadow = Func('shadow', [('n', INT, False)], EMPTY, [_mark('f'), d2] + use(t, l2) + [ExprStmt(Call(show, []))])
+                    call_shadow = Call(shadow, [arg(0)])
+                after = Func('after', [], t, [_mark('a')] + use(t, G) + [Ret(G)])
+                res_ = Call(after, [])
+                body = [ExprStmt(Call(show, [])), ExprStmt(Call(inner, [arg(0)])), ExprStmt(call_shadow), W(Cast(res_, INT) if t == BYTE else res_), _mark(' ')] + use(t, G) + [_mark('\n')]
+                main = Func('@is_you', [('v', Arr(INT, True), False)], EMPTY, body)
+                funcs = {0: [main, inner, shadow, after, show], 1: [show, after, shadow, inner, main], 2: [shadow, main, after, inner, show]}[order]
+                yield f'const-shadow/{t}/{kind}/order{order}', Program([Decl('N', t, Lit(t, v0, keep=True), const=True)], funcs)
+
+
+CONST_SHADOW_ARGS = [['1']]
+
+
+def spec_bool_programs():
+    """`a ?? b` on bool and byte operands (calls, variables, comparisons, elements against literals true / false, variables, comparisons,
+    calls) where a condition is expected - if, while, not, and / or operand, !truth_is_defeat via a defeat function's argument - and as a
+    value; each as the very FIRST statement of its function (registers as the caller left them) and again after other statements"""
+    n, k = Var('n', INT), Var('k', INT)
+    ready = Func('ready', [('x', INT, False)], BOOL, [_mark('r'), Ret(Bin('>', Var('x', INT), _i(2)))])
+    chr_ = Func('chr', [('x', INT, False)], BYTE, [_mark('c'), Ret(Cast(Bin('+', Var('x', INT), _i(60)), BYTE))])
+    fa = Var('fa', Arr(BOOL, False))
+    lefts = {'call': lambda: Call(ready, [n]), 'param': lambda: Var('f', BOOL), 'compare': lambda: Bin('>', n, _i(2)), 'elem': lambda: Index(fa, Lit(INT, 1)),
+             'not_call': lambda: Un('not', Call(ready, [n])), 'literal': lambda: Lit(BOOL, True)}
+    rights = {'true': lambda: Lit(BOOL, True), 'false': lambda: Lit(BOOL, False), 'param': lambda: Var('g', BOOL), 'compare': lambda: Bin('==', k, _i(1)),
+              'call': lambda: Call(ready, [k]), 'elem': lambda: Index(fa, Lit(INT, 0))}
+    for ln, L in lefts.items():
+        for rn, R in rights.items():
+            mk = lambda: Spec(L(), R())    # noqa: E731
+            params = [('n', INT, False), ('k', INT, False), ('f', BOOL, False), ('g', BOOL, False), ('fa', Arr(BOOL, False), False)]
+            positions = {
+                'if': [If(mk(), [_mark('T')], [_mark('F')])],
+                'if_not': [If(Un('not', mk()), [_mark('T')], [_mark('F')])],
+                'while': [While(mk(), [_mark('w'), OpAssign(n, '-', _i(7)), OpAssign(k, '+', _i(7)), Assign(Var('f', BOOL), Lit(BOOL, False)), Assign(Var('g', BOOL), Lit(BOOL, True)),
+                                       Assign(Index(fa, Lit(INT, 1)), Lit(BOOL, False)), Assign(Index(fa, Lit(INT, 0)), Lit(BOOL, True)), If(Bin('<', n, _i(-40)), [Break()])]), _mark('e')],
+                'and': [If(Bin('and', mk(), Bin('>', k, _i(-50))), [_mark('T')], [_mark('F')])],
+                'or': [If(Bin('or', Bin('>', k, _i(50)), mk()), [_mark('T')], [_mark('F')])],
+                'value': [W(mk())],
+                'decl': [Decl('d', BOOL, mk()), W(Var('d', BOOL))],
+                'as_int': [W(Bin('+', Cast(mk(), INT), _i(10)))],
+                'return': [Ret(mk())],
+            }
+            funcs, calls = [], []
+            for pn, stmts in positions.items():
+                for first in (True, False):
+                    pre = [] if first else [Decl('twice', INT, Bin('+', n, n)), W(S('x'))]
+                    tail = [] if pn == 'return' else [Ret(Lit(BOOL, True))]
+                    fn = Func(f'@{pn}_{"first" if first else "later"}', params, BOOL, pre + stmts + tail)
+                    funcs.append(fn)
+                    calls += [W(Call(fn, [n, k, Bin('>', n, k), Bin('<', n, _i(0)), fa])), _mark(' ')]
+            body = [Decl('fa', Arr(BOOL, False), ArrLit([Bin('>', k, _i(0)), Bin('>', n, _i(0))], BOOL, False))] + calls + [_mark('\n')]
+            main = Func('@is_you', [('n', INT, False), ('k', INT, False)], EMPTY, body)
+            yield f'spec-bool/{ln}/{rn}', Program([], [main] + funcs + [ready, chr_])
+    # byte operands
+    for rn, R in (('literal', lambda: Lit(BYTE, 67)), ('call', lambda: Call(chr_, [k])), ('param', lambda: Var('b', BYTE))):
+        for ln, L in (('call', lambda: Call(chr_, [n])), ('param', lambda: Var('a', BYTE)), ('cast', lambda: Cast(Bin('+', n, _i(60)), BYTE))):
+            mk = lambda: Spec(L(), R())    # noqa: E731
+            fn = Func('@pick', [('n', INT, False), ('k', INT, False), ('a', BYTE, False), ('b', BYTE, False)], BYTE,
+                      [If(Bin('==', mk(), Lit(BYTE, 67)), [_mark('=')], [_mark('#')]), Decl('d', BYTE, mk()), W(Var('d', BYTE)), W(Cast(mk(), INT)), Ret(mk())])
+            main = Func('@is_you', [('n', INT, False), ('k', INT, False)], EMPTY, [W(Call(fn, [n, k, Cast(Bin('+', n, _i(60)), BYTE), Cast(Bin('+', k, _i(60)), BYTE)])), _mark('\n')])
+            yield f'spec-byte/{ln}/{rn}', Program([], [main, fn, chr_])
+
+
+SPEC_BOOL_ARGS = [['7', '1'], ['1', '1'], ['1', '7'], ['3', '-3'], ['0', '0']]
